@@ -98,6 +98,20 @@ def decode_base58_checksum(s: str) -> bytes:
     return num_bytes[:-4]
 
 
+def read_exact(s: BytesIO, n: int) -> bytes:
+    """
+    Reads exactly n bytes from buffer.
+
+    :param s: buffer
+    :param n: number of bytes to read
+    :return: n bytes (ValueError is raised if buffer ends early)
+    """
+    data = s.read(n)
+    if len(data) != n:
+        raise ValueError("unexpected end of data")
+    return data
+
+
 def read_varint(s: BytesIO) -> int:
     """
     Reads variable integer from buffer.
@@ -105,19 +119,19 @@ def read_varint(s: BytesIO) -> int:
     :param s: encoded varint
     :return: integer
     """
-    i = s.read(1)[0]
+    i = read_exact(s, 1)[0]
     if i == 0xfd:
         # number is between 253 and 2^16 -1
         # 0xfd means the next two bytes are the number
-        return little_endian_to_int(s.read(2))
+        return little_endian_to_int(read_exact(s, 2))
     elif i == 0xfe:
         # number is between 2^16 and 2^32 – 1
         # 0xfe means the next four bytes are the number
-        return little_endian_to_int(s.read(4))
+        return little_endian_to_int(read_exact(s, 4))
     elif i == 0xff:
         # number is between 2^32 and 2^64 – 1
         # 0xff means the next eight bytes are the number
-        return little_endian_to_int(s.read(8))
+        return little_endian_to_int(read_exact(s, 8))
     else:
         # anything else is just the integer
         return i
